@@ -110,7 +110,7 @@ def run_unit(u):
                 for j in range(case.n_p):
                     G[3 * sub[j]:3 * sub[j] + 3, 3 * j:3 * j + 3] = Rc
                 rhs = np.dot(G, np.dot(Dq, G.T))
-                _chk(res, u, "point_group op%d" % oi, cflat(D[1 + oi]), cflat(rhs), A, xs, case, False, None)
+                _chk(res, u, "point_group op%d" % oi, cflat(D[1 + oi]), cflat(rhs), A, xs, case, False, ("point_group", QS[0], oi))
             # reciprocal_operations of the primitive symmetry are exactly {(r^-1)^T} (+ time reversal)
             _check_reciprocal_ops(case, res)
             v2, _, _ = assert_equal(Result("t"), "twin", cflat(D[1]), cflat(D[0] * 1.01), A, tol=TOL)
@@ -267,6 +267,22 @@ def _replay(case, x, compact, spec):
         D = case.D_concrete(fc, [q, [a + g for a, g in zip(q, G)]])
         ph = np.exp(2j * np.pi * (case.ppos @ np.array(G, dtype=float))); U = np.repeat(ph, 3)
         d = np.abs(D[1] - D[0] * np.outer(np.conj(U), U)).max()
+    elif kind == "point_group":
+        oi = spec[2]
+        ops = space_group_ops(case)
+        F = np.array(sg_average(case, fc.astype(object), ops), dtype=float)
+        B = np.linalg.inv(case.prim.cell).T
+        Rc, perm, r, t = ops[oi]
+        q2 = list(((Rc @ (np.array(q) @ B)) @ case.prim.cell.T))
+        D = case.D_concrete(F, [q, q2])
+        sub = [case.p2p[case.s2p[perm[case.p2s[j]]]] for j in range(case.n_p)]
+        G = np.zeros((3 * case.n_p, 3 * case.n_p))
+        for j in range(case.n_p):
+            G[3 * sub[j]:3 * sub[j] + 3, 3 * j:3 * j + 3] = Rc
+        d = np.abs(D[1] - G @ D[0] @ G.T).max()
+        # the property speaks about the spectrum: confirm on eigenvalues as well
+        e1 = np.linalg.eigvalsh(D[0]); e2 = np.linalg.eigvalsh(D[1])
+        d = max(d * (np.abs(e1 - e2).max() > TOL), np.abs(e1 - e2).max())
     else:
         return False, 0.0
     return d > TOL, float(d)
